@@ -81,6 +81,9 @@ type c14In struct {
 	Del   bool  // ReplaceWithFunc: callback asks for deletion
 	Now   int64 // sweep: the now handed to CheckExpirations
 	Dt    int64
+	// Cache.LoadOrStore with an element object that several callers share (one per key, never expires): the model
+	// does not care, the value is what counts
+	Shared bool
 }
 
 type c14Out struct {
@@ -244,6 +247,7 @@ func c14Run(e *Env, isCache bool) {
 	tick := func() int64 { e.mu.Lock(); seq++; v := seq; e.mu.Unlock(); return v }
 	add := func(r *c14Rec) { e.mu.Lock(); recs = append(recs, r); e.mu.Unlock() }
 	subClient := 100
+	sharedEl := map[int]*cache.Element[int]{}
 	sweeps := map[uint64]sweepInfo{}
 	overlapped := map[string]bool{}
 	rangeActive := 0
@@ -342,6 +346,9 @@ func c14Run(e *Env, isCache bool) {
 				in.Op = []int{cLoadOrStore, cLoad, cSweep, cDelete, cRefresh}[t.Weighted(4, 3, 3, 1, 2)]
 				// validity: short (expires during the run), long, or never
 				in.Until = []int64{50, 10, 1000000, 0, 120}[t.Choose(5)] // relative ms, resolved at invoke
+				if in.Op == cLoadOrStore && t.Chance(1, 5) {
+					in.Shared, in.V, in.Until = true, 9000+in.K, 0
+				}
 			} else {
 				in.Op = t.Choose(int(mVisit))
 				in.Del = t.Chance(1, 3)
@@ -457,6 +464,16 @@ func c14Run(e *Env, isCache bool) {
 				e.mu.Unlock()
 				add(&c14Rec{client: sc, in: c14In{Op: cSweepKey, K: key, Now: sw.now}, out: c14Out{V: d}, call: sw.call, ret: tick()})
 			})
+			if in.Shared {
+				e.Probe("cache.loadOrStoreWithSharedElement")
+				r.in.Shared = false // (not part of the operation as the model sees it)
+				e.mu.Lock()
+				if sharedEl[key] == nil {
+					sharedEl[key] = el
+				}
+				el = sharedEl[key]
+				e.mu.Unlock()
+			}
 			r.call = tick()
 			actual, loaded := c.LoadOrStore(in.K, el)
 			r.out.V, r.out.Ok = actual.Data(), loaded
